@@ -114,13 +114,21 @@ theorem stderr_taken_all (R : ReaderParams) (hR : R.Good) (sinkFails : Nat → B
   induction lines generalizing i with
   | zero => rfl
   | succ n ih =>
-    have : R.endsOnlyOnReadError = true := hR
+    have : R.endsOnlyOnReadError = true := hR.1
     simp [stderrTaken, this, ih]; omega
+
+/-- stderr output that precedes the handshake line is consumed while `Start` waits for the line -/
+theorem stderr_taken_before_handshake (R : ReaderParams) (hR : R.Good) (lines : Nat) :
+    stderrTakenDuringStart R lines = lines := by
+  simp [stderrTakenDuringStart, hR.2]
 
 /-! ### The structural facts matter (witnesses) -/
 
 /-- a loop that returns when the sink write fails leaves everything after the first failure unread -/
-theorem sink_error_witness : stderrTaken ⟨false⟩ (fun i => i == 2) 1000 0 = 3 := by decide
+theorem sink_error_witness : stderrTaken ⟨false, true⟩ (fun i => i == 2) 1000 0 = 3 := by decide
+
+/-- a reader that first asks the client for something guarded by the lock `Start` holds reads nothing until `Start` returns -/
+theorem reader_waits_for_start_witness : stderrTakenDuringStart ⟨true, false⟩ 2048 = 0 := by decide
 
 
 /-- `{"@message": 5}` -/
